@@ -566,7 +566,12 @@ def run_item(ctx, item):
         if pitched and rng.random() < 0.25:
             inner = sorted({int(n.start.t) for n in pitched})[1:]
             if inner:
-                p_.add(S.Clef(staff=1, sign=rng.choice(["G", "F", "C"]), line=rng.choice([2, 3, 4]), octave_change=0), rng.choice(inner))
+                if rng.random() < 0.3:
+                    # a clef written without a line (MusicXML's <line> is optional), transposing by an octave (a tenor's treble clef)
+                    p_.add(S.Clef(staff=1, sign=rng.choice(["G", "F"]), line=None, octave_change=rng.choice([-1, 1, -1, 0])), rng.choice(inner))
+                    ctx.extra["generated_clefs_without_line"] += 1
+                else:
+                    p_.add(S.Clef(staff=1, sign=rng.choice(["G", "F", "C"]), line=rng.choice([2, 3, 4]), octave_change=rng.choice([0, 0, -1])), rng.choice(inner))
     hostile = None
     r = rng.random()
     p0 = sc.parts[0]
